@@ -251,6 +251,91 @@ def draw_opts(rng):
 
 
 # ---------------------------------------------------------------------------
+# spacing variants and related option sets (C20 variant histories)
+#
+# One statement, written with every kind of gap between its pieces (glued,
+# one blank, several, line break, tab) and with comments in every position,
+# formatted under option sets that share one filter and differ in the filters
+# around it.  A filter that keeps an object across calls (a token built once
+# at module level, a cached helper) and another filter that changes objects
+# in place only interfere for particular neighbourhoods: the call that damages
+# the shared object and the call that shows the damage need *different*
+# spacing around the same construct.
+
+DENSE_TEMPLATES = [
+    ['select', 'a', '/* c */', 'from', 'b'],
+    ['select', 'a', ',', 'b', '--c\n', 'from', 't', 'where', 'x', '=', '1'],
+    ['select', 'a', '+', 'b', '*', '2', ',', "'a long string literal'",
+     'from', 't', 'where', 'n', '>=', '10', 'or', 'm', '<>', "'another long one'"],
+    ['/* h */', 'select', '1', ';', '/* t */', 'select', '2', '-- e\n'],
+    ['select', 'f', '(', 'a', ',', '/* c */', 'b', ')', 'from', '(',
+     'select', '1', ')', 'x'],
+    ['select', 'case', 'when', 'a', '>', '1', 'then', '/*c*/', "'x'", 'else',
+     'b', 'end', 'from', 't'],
+    ['insert', 'into', 't', '(', 'a', ',', 'b', ')', 'values', '(', '1', ',',
+     '2', ')', '/* c */', ',', '(', '3', ',', '4', ')'],
+    ['select', 'a', 'from', 't', 'where', 'b', '=', '1', '/* c */', 'and',
+     'c', '<>', '2', 'order', 'by', 'a', ',', 'b', 'desc'],
+    ['create', 'table', 't', '(', 'a', 'int', ',', '-- k\n', 'b', 'varchar',
+     '(', '10', ')', ')'],
+    ['select', 'a', '/* one */', '/* two */', ',', 'b', 'as', 'c', 'from',
+     't', 'join', 'u', 'on', 't', '.', 'x', '=', 'u', '.', 'x', '--+ hint\n',
+     'group', 'by', 'a', ',', 'b'],
+    ['select', '*', 'from', 't', '/* c */', ';', 'select', '/* d */', '2',
+     ';'],
+]
+
+_GAPS = ['', '', '', ' ', ' ', '  ', '\n', ' \n ', '\t', '\n\n']
+
+
+def gen_dense(rng, template=None):
+    """A spacing variant of one of DENSE_TEMPLATES (two words are never glued
+    together; everything else may be)."""
+    tpl = template or DENSE_TEMPLATES[rng.randrange(len(DENSE_TEMPLATES))]
+    out = [tpl[0]]
+    for prev, cur in zip(tpl, tpl[1:]):
+        gap = _GAPS[rng.randrange(len(_GAPS))]
+        if not gap and prev[-1].isalnum() and cur[0].isalnum():
+            gap = ' '
+        out.append(gap)
+        out.append(cur)
+    if rng.random() < 0.3:
+        out.append(rng.choice([' ', '\n', ';', ' ;\n']))
+    return ''.join(out)
+
+
+_FAMILY_BASE = [
+    {'strip_comments': True}, {'strip_comments': True},
+    {'use_space_around_operators': True}, {'strip_whitespace': True},
+    {'truncate_strings': 4}, {'keyword_case': 'upper'},
+    {'identifier_case': 'upper'}, {'reindent': True},
+    {'reindent_aligned': True}, {'output_format': 'python'},
+    {'output_format': 'php'}, {},
+]
+_FAMILY_EXTRA = [
+    {'strip_whitespace': True}, {'reindent': True},
+    {'reindent_aligned': True}, {'strip_comments': True},
+    {'use_space_around_operators': True}, {'keyword_case': 'upper'},
+    {'identifier_case': 'lower'}, {'reindent': True, 'compact': True},
+    {'reindent': True, 'comma_first': True},
+    {'reindent': True, 'indent_columns': True},
+    {'reindent': True, 'wrap_after': 10}, {'truncate_strings': 6},
+    {'output_format': 'python'},
+]
+
+
+def draw_opts_family(rng, k=3):
+    """Option sets that share one base filter and differ in the others."""
+    base = _FAMILY_BASE[rng.randrange(len(_FAMILY_BASE))]
+    fam = [dict(base)]
+    for extra in rng.sample(_FAMILY_EXTRA, k - 1):
+        o = dict(base)
+        o.update(extra)
+        fam.append(o)
+    return fam
+
+
+# ---------------------------------------------------------------------------
 # nesting constructs (C15): pure functions (construct, depth) -> text
 
 CONSTRUCTS = ['paren', 'bracket', 'func', 'case', 'subquery', 'arith',
